@@ -579,3 +579,75 @@ def rule_default_update(ctx: Ctx, clause: str, require_perform_update: bool = Fa
             "M_c.default_update(M_sim, M_env, self)", pp[0].value) is not None and flow.dump(pp[0].value.args[0]) == up.params[1]
         ctx.check(good, clause, "ORD.terminal", f"{sc.name}.update is default_update(sim, env, self)", up,
                   why_bad="update() does not delegate to default_update with its own sim and self", construct=f"{sc.name}.update:shape")
+
+
+# ------------------------------------------------------------------------------------------ error discipline
+AMBIGUOUS_PAIR_NAMES = {"update", "charge", "build", "from_row", "_update"}
+STEP_PATH_EXCLUDE = ("nrel/hive/resources", "nrel/hive/reporting", "nrel/hive/app", "nrel/hive/initialization", "nrel/hive/runner", "nrel/hive/config")
+
+
+def pair_returning_names(repo: Repo) -> Set[str]:
+    """Names of functions whose declared result is the repository's error pair (Tuple[Optional[Exception], Optional[T]]
+    / ErrorOr[T]); names that are also used by functions with another result type are left out."""
+    out: Set[str] = set()
+    other: Set[str] = set()
+    for f in repo.all_funcs():
+        ret = getattr(f.node, "returns", None)
+        if ret is None:
+            continue
+        d = flow.dump(ret)
+        if "ErrorOr[" in d or d.lstrip("'\"").startswith(("Tuple[Optional[Exception]", "Tuple[Optional[Error]")):
+            out.add(f.name)
+        else:
+            other.add(f.name)
+    return out - AMBIGUOUS_PAIR_NAMES - (other & {"update", "charge"})
+
+
+def rule_error_discipline(ctx: Ctx, clause: str, rule="DU.error-discipline", min_sites: int = 40):
+    """Whatever a function returns may contain the value slot `f(...)[1]` of an error-pair call only on paths that
+    tested that call's error slot falsy or its value slot present: a failed sub-operation never contributes a
+    (None) state or entity to the result."""
+    repo = ctx.repo
+    names = pair_returning_names(repo)
+    n = 0
+    for f in repo.all_funcs():
+        if f.relpath.startswith(STEP_PATH_EXCLUDE):
+            continue
+        try:
+            ps = flow.paths(f.node)
+        except AnalysisError:
+            continue
+        seen = set()
+        for p in ps:
+            if p.kind != "return" or p.value is None:
+                continue
+            for s in ast.walk(p.value):
+                if not (isinstance(s, ast.Subscript) and isinstance(s.slice, ast.Constant) and s.slice.value == 1 and isinstance(s.value, ast.Call)):
+                    continue
+                c = s.value
+                nm = c.func.attr if isinstance(c.func, ast.Attribute) else getattr(c.func, "id", None)
+                if nm not in names:
+                    continue
+                key = (nm, getattr(s, "lineno", 0), p.lineno)
+                if key in seen:
+                    continue
+                seen.add(key)
+                err = ast.dump(ast.Subscript(value=c, slice=ast.Constant(value=0), ctx=ast.Load()))
+                st = ast.dump(s)
+                tested = False
+                for a, pol in p.facts():
+                    d = ast.dump(a)
+                    if (d == err and pol is False) or (d == st and pol is True):
+                        tested = True
+                    if flow.is_syn(a, "$isnone"):
+                        da = ast.dump(a.args[0])
+                        if (da == err and pol is True) or (da == st and pol is False):
+                            tested = True
+                n += 1
+                ctx.check(tested, clause, rule, f"{f.qualname}: result of {nm}() used only after its error / None was ruled out (return at line {p.lineno})", f, p.end,
+                          why_bad=f"path [{p.cond_text()[:240]}] returns a value built from {nm}(...)[1] without having tested {nm}(...)[0] or the value itself: "
+                                  f"when {nm} fails, a None state/entity flows on as if it had succeeded",
+                          construct=f"{f.qualname}:unchecked:{nm}")
+    if n < min_sites:
+        ctx.soft_fail(f"error-discipline rule matched {n} sites (< {min_sites})")
+    return n
